@@ -156,7 +156,16 @@ def run(tier, seed, replay=None):
     rep = Report(PID, tier, seed, 'exploration')
     if replay:
         import json
-        rep.absorb(run_cases(child, [json.load(open(replay))['witness']['case']], watchdog=900))
+        wcase = json.load(open(replay))['witness']['case']
+        if 'max_send' in wcase:
+            from exv.props import c17
+            for r in run_cases(c17.child, [wcase], watchdog=1500):
+                for viol in (r.value['violations'] if r and r.status == 'ok' else []):
+                    if viol['key'] == 'headers/proof-does-not-verify':
+                        rep.violations.append(dict(viol, key='proof/header-chunk-proof-does-not-verify'))
+                rep.evaluations += 1
+        else:
+            rep.absorb(run_cases(child, [wcase], watchdog=900))
         return rep.finish(rule='replay', min_distinct=0)
     cases = gen_cases(tier, seed, judge=('C11',), queries=True)
     rng = random.Random(seed)
@@ -167,6 +176,20 @@ def run(tier, seed, replay=None):
         cse['reorg_limit'] = rng.choice((3, 5))
     rep.absorb(run_cases(child, cases, watchdog=900), 'scenario')
     rep.absorb(run_cases(child, proof_race_cases(tier, seed), watchdog=900), 'proof race')
+    # header chunks with proofs on a chain longer than the 2016-header cap (clamped chunks): the C17 long-chain sweep, of which only
+    # the proof verdicts are taken over here
+    from exv.props import c17
+    for r in run_cases(c17.child, [{'seed': seed * 13 + k, 'max_send': 350000, 'nblocks': 2100 + 7 * k} for k in range(1 if tier == 'quick' else 3)], watchdog=1500):
+        if r is None or r.status != 'ok':
+            rep.inconc(f'long-chain header chunk run failed: {r and r.status}')
+            continue
+        v = r.value
+        rep.count('header_chunk_proofs_verified_on_a_long_chain', v['counters'].get('header_chunk_proofs_verified', 0))
+        rep.evaluations += 1
+        for viol in v['violations']:
+            if viol['key'] == 'headers/proof-does-not-verify':
+                rep.violations.append(dict(viol, key='proof/header-chunk-proof-does-not-verify'))
+    rep.floor('header_chunk_proofs_verified_on_a_long_chain', rep.counters['header_chunk_proofs_verified_on_a_long_chain'], 150)
     scases = [{'seed': seed * 977 + i, 'nseq': 30 if tier == 'quick' else 400, 'rounds': 12, 'p_reorg': (0.0, 0.3, 0.6)[i % 3]}
               for i in range(32)]
     rep.absorb(run_cases(stress_child, scases, watchdog=900), 'cache stress')
